@@ -10,8 +10,10 @@
     (`stepsIsolated`, `flushIsolated`, `timerGuarded`, `startGuarded`, `shutdownGuarded`, `startedSetLast`) and
     the model behaves accordingly — so it follows the code when the code changes, and the theorems of C14 need
     the facts to be `true` (`by decide` on the skeletons regenerated this run).
-  Hand-written glue (validated by the correspondence runs against real `Deep` objects): the order of the steps,
-  what each step does to the state.
+  Hand-written glue (validated by the correspondence runs against real `Deep` objects): what each step does to the
+  state.  `start` / `shutdown` below are the SPECIFICATION machine; the two method bodies as the source has them now
+  are `startX` / `shutdownX` (Model/LifecyclePlan.lean, translated statement lists), proved equal to these in
+  Props/C14 (`c14_start_translated`, `c14_shutdown_translated`).
 -/
 import DeepModel.Model.Guard
 import DeepModel.Extracted.Guards
